@@ -180,6 +180,28 @@ pub fn check_single(f: &L, loc: &mut Local) {
         }
         Err(m) => loc.violation("to_strict:failed", json!({"case": case, "why": m})),
     }
+    // aliases and the hypergraph-level conversion: to_open_hypergraph is to_strict; to_hypergraph of the
+    // quotiented diagram is the hypergraph part of to_strict
+    {
+        #[allow(deprecated)]
+        let alias = catch(|| lf.clone().to_open_hypergraph()).and_then(|s| decode_open(&s));
+        let main = catch(|| lf.clone().to_strict()).and_then(|s| decode_open(&s));
+        loc.trans(2);
+        if alias != main {
+            loc.violation("to_open_hypergraph-differs-from-to_strict", json!({"case": case}));
+        }
+        let mut q = lf.clone();
+        if catch(|| q.quotient().is_ok()) == Ok(true) {
+            match (catch(|| q.hypergraph.to_hypergraph()).and_then(|h| crate::onvec::decode_hyper(&h)), &main) {
+                (Ok(h), Ok(m)) => {
+                    if h.nodes != m.nodes || h.edges != m.edges {
+                        loc.violation("to_hypergraph-differs-from-to_strict", json!({"case": case, "got": h, "expected": m}));
+                    }
+                }
+                (other, _) => loc.violation("to_hypergraph:failed", json!({"case": case, "got": format!("{:?}", other)})),
+            }
+        }
+    }
     if !f.quot.is_empty() {
         loc.nontrivial();
     }
